@@ -355,3 +355,32 @@ Fixpoint run_ok (usage : node_resource) (live : list wres) (nanos : list Z)
   end.
 
 Definition ok (c : case) : bool := run_ok (ni_usage (c_init c)) [] [] None (c_steps c).
+
+(* ---------- boolean reflection of C32 on the implementation's observations ---------- *)
+(* the cores that still have a full core's worth of free pieces according to
+   the usage the implementation reports (all capacity cores when none has) *)
+Definition expected_share (cap usage : node_resource) (base : Z) : list string :=
+  let free := filter (fun c => base <=? lookup 0 (nr_cpumap cap) c - lookup 0 (nr_cpumap usage) c)
+                     (keys (nr_cpumap cap)) in
+  match free with [] => keys (nr_cpumap cap) | _ => free end.
+
+Definition unbound_positions (live : list wres) : list nat :=
+  map fst (filter (fun iw => match wr_cpumap (snd iw) with [] => true | _ => false end) (number_from live 0)).
+
+(* exactly the unbound workloads are remapped, each onto exactly the expected
+   cores at [base] pieces; bound workloads get nothing *)
+Definition remap_ok_step (base : Z) (cap : node_resource) (live : list wres) (ob : obs) : bool :=
+  let exp := sort_strs (expected_share cap (o_usage ob) base) in
+  list_eqb Nat.eqb (map fst (o_remap ob)) (unbound_positions live)
+  && forallb (fun e => list_eqb String.eqb (sort_strs (keys (snd e))) exp
+                       && forallb (fun kv => snd kv =? base) (snd e)) (o_remap ob).
+
+Fixpoint run_ok_remap (base : Z) (cap : node_resource) (live : list wres) (steps : list (op * obs)) : bool :=
+  match steps with
+  | [] => true
+  | (o, ob) :: t =>
+      let live' := live_after live o (o_err ob) in
+      remap_ok_step base cap live' ob && run_ok_remap base cap live' t
+  end.
+
+Definition ok_remap (c : case) : bool := run_ok_remap (c_base c) (ni_cap (c_init c)) [] (c_steps c).
